@@ -1368,8 +1368,10 @@ def _free_ids(s, n):
 
 
 def case_variants(name):
+    """the name and its other-case spelling (type lookup is case-insensitive) - unless that spelling is exactly a
+    primitive type name (`UINT8` -> `uint8`): there it denotes the built-in type, not the public type"""
     out = [name]
-    if name.swapcase() != name:
+    if name.swapcase() != name and name.swapcase() not in S.PRIM_SIZE:
         out.append(name.swapcase())
     return out
 
